@@ -13,6 +13,7 @@ type G struct {
 	r *rng.R
 	// knobs
 	allowKnown bool // also generate the input classes of the open known findings
+	plain      bool // only defaults and unique indexes whose effect on rows the engine model evaluates (populated model cases)
 }
 
 var (
@@ -33,6 +34,15 @@ func (g *G) pick(l []string) string { return l[g.r.Intn(len(l))] }
 func (g *G) def(k string) *Def {
 	switch g.r.Intn(9) {
 	case 0, 1, 2:
+		return nil
+	}
+	if g.plain {
+		switch {
+		case isIntTy(k) || k == "numeric" || k == "decimal(10,2)" || k == "boolean": // literals of these classes are printed unquoted
+			return &[]Def{{V: "5"}, {V: "1"}, {V: "42"}}[g.r.Intn(3)]
+		case isTextTy(k):
+			return &[]Def{{V: "a"}, {V: "'b'"}, {V: "it's"}, {V: "a b"}}[g.r.Intn(4)]
+		}
 		return nil
 	}
 	switch {
@@ -216,6 +226,10 @@ func nameUsed(s *Schema, n string) bool {
 
 func (g *G) index(s *Schema, t *Table) Idx {
 	i := Idx{Name: g.idxName(s, t), Unique: g.r.Chance(1, 3), Parts: g.parts(t, true)}
+	if g.plain && i.Unique {
+		i.Parts = g.parts(t, false)
+		return i
+	}
 	if g.r.Chance(1, 5) {
 		c := g.pick(storedCols(t))
 		i.Pred = sp([]string{"`%s` IS NOT NULL", "(`%s` IS NOT NULL)", "`%s` > 0"}[g.r.Intn(3)])
@@ -475,7 +489,10 @@ var edits = []edit{
 	{"add-col-notnull-default", func(g *G, s *Schema, t *Table) bool {
 		c := g.col(g.freshCol(t), t.Strict)
 		c.Null = false
-		for c.Def == nil {
+		for k := 0; c.Def == nil; k++ {
+			if k > 20 {
+				c.Type = "integer"
+			}
 			c.Def = g.def(c.Type)
 		}
 		t.Cols = append(t.Cols, c)
@@ -557,8 +574,12 @@ var edits = []edit{
 			c := &t.Cols[i]
 			if c.Null && c.Gen == nil {
 				c.Null = false
-				for c.Def == nil {
+				for k := 0; c.Def == nil && k <= 20; k++ {
 					c.Def = g.def(c.Type)
+				}
+				if c.Def == nil { // no default of that type in this generator mode
+					c.Null = true
+					continue
 				}
 				return true
 			}
